@@ -56,6 +56,12 @@ extern "C" {
 #else
 #define MIN_BUFFER_SIZE	1024
 #endif
+#if defined(LIBEVENT_VERIF) && defined(LIBEVENT_VERIF_MIN_BUFFER_SIZE)
+/* Verification hook: scale the minimum chain allocation so that bounded
+ * symbolic execution can cross chain boundaries with small objects. */
+#undef MIN_BUFFER_SIZE
+#define MIN_BUFFER_SIZE	LIBEVENT_VERIF_MIN_BUFFER_SIZE
+#endif
 
 /** A single evbuffer callback for an evbuffer. This function will be invoked
  * when bytes are added to or removed from the evbuffer. */
